@@ -180,6 +180,9 @@ func (e *Engine) registerIntrinsics() {
 		call(fr.i, fr, 0, args[0], nil)
 		return ""
 	})
+	e.reg(v+"Lock", func(fr *frame, args []value) value { return nil })
+	e.reg(v+"Unlock", func(fr *frame, args []value) value { return nil })
+	e.reg(v+"Pause", func(fr *frame, args []value) value { fr.i.yield(false); return nil })
 	e.reg(v+"Yield", func(fr *frame, args []value) value { fr.i.yield(false); return nil })
 	e.reg(v+"Note", func(fr *frame, args []value) value { return nil })
 	e.reg(v+"Opaque", func(fr *frame, args []value) value { return opaqueStr{hint: fr.i.concretizeStr(args[0])} })
